@@ -70,6 +70,23 @@ def built_packet(fn, call):
     r_ = q.strip_casts(call['args'][-1])
     while is_node(r_) and r_['k'] in ('call', 'construct') and ((q.callee_name(r_) or '').endswith('move') or r_['k'] == 'construct') and len(r_.get('args', [])) == 1:
         r_ = q.strip_casts(r_['args'][0])
+    if is_node(r_) and r_['k'] == 'ref' and r_.get('dk') == 'local':
+        ds = q.local_defs(fn, r_['did'])        # `packet p = make_reset(...)`: the packet is the one the helper built
+        if len(ds) == 1 and is_node(ds[0][1]):
+            r2 = q.strip_casts(ds[0][1])
+            while is_node(r2) and r2['k'] == 'construct' and len(r2.get('args', [])) == 1:
+                r2 = q.strip_casts(r2['args'][0])
+            if is_node(r2) and r2['k'] == 'call' and r2.get('inlined') and is_node(r2.get('inl')):
+                r_ = r2
+    if is_node(r_) and r_['k'] == 'call' and r_.get('inlined') and is_node(r_.get('inl')):
+        # built by a helper spliced into this view: the local the helper returns
+        rets = [q.strip_casts(x['e']) for x in walk(r_['inl']) if x['k'] == 'ireturn' and x.get('e') is not None]
+        while rets and all(is_node(x) and x['k'] == 'construct' and len(x.get('args', [])) == 1 for x in rets):
+            rets = [q.strip_casts(x['args'][0]) for x in rets]
+        rets = [x for x in rets if is_node(x) and x['k'] == 'ref' and x.get('dk') == 'local']
+        if len(rets) != 1:
+            return None
+        r_ = rets[0]
     if not (is_node(r_) and r_['k'] == 'ref' and r_.get('dk') == 'local'):
         return None
     out = {}
@@ -218,7 +235,7 @@ def acceptor_reopen_rule(run):
                 v = q.const_eval(f, rhs, lambda t: None) if is_node(rhs) else None
                 if isinstance(v, int) and not isinstance(v, bool) and v < 0:
                     lim.append(a.site)
-        lim += [c for c in cl if not q.guards_at(f, c)]
+        lim += cl       # closing it as an acceptor resets the limit too (close-ends-listening); whatever path skips the close must assign
         run.check(bool(lim) and q.on_all_paths(f, lim), 'R7', 'reopen-not-listening', f.norm + f.sig, f.loc(),
                   'a path through acceptor::open() leaves m_queue_size_limit as it was: an acceptor that was moved from (the defaulted move copies the limit) and is opened and bound again queues incoming connections although listen() was never called on it - the connector hangs instead of being refused',
                   'the listen limit is reset (or the acceptor closed as an acceptor) on every path')
